@@ -50,12 +50,21 @@ def check_C02(tier, nproc=None):
     return c.finish()
 
 
+STRING_TEMPLATES = [
+    # strings with arbitrary content inside each kind of container (the fast skipper steps over them)
+    [b'{"":"', 8, b'"}'], [b'["', 8, b'"]'], [b'{"', 8, b'":0}'], [b'[{"":"', 6, b'"}]'], [b'{"":["', 6, b'"]}'],
+    [b'[[', 3, b'],{', 3, b'}]'], [b'{"":{', 4, b'},"":[', 2, b']}'],
+]
+
+
 def check_C11(tier, nproc=None):
     c = Check('C11', tier)
     N = 7 if tier == 'quick' else 10
     modes = [0, 4] if tier == 'quick' else [0, 1, 2, 4]
     _machine_jobs(c, 'vH_C11', N, modes)
-    c.bounds = {'N': N, 'buffer_modes_for_fast': modes}
+    for t in STRING_TEMPLATES:
+        c.add(Job('vH_C11', [('tmpl', 'd', t), ('int', 0)], weight=3 ** 8))
+    c.bounds = {'N': N, 'buffer_modes_for_fast': modes, 'templates': [''.join(('?' * x) if isinstance(x, int) else x.decode() for x in t) for t in STRING_TEMPLATES]}
     c.must_reach = ['C11.wellformed']
     c.assumptions = ['encoder validated by native replay of samples', 'amd64']
     c.outside = ['inputs longer than N bytes', 'depth limit 10,000']
@@ -161,6 +170,95 @@ def check_C14(tier, nproc=None):
     c.must_reach = ['C14.compared', 'C14.reentrant-compared']
     _std(c, ['any history of calls leaves the Buffer as *some* []int; an arbitrary slice therefore covers every history (trivial induction)'])
     c.outside = ['inputs longer than N', 'stack slices longer than 10 words (the machine only reads stack[j] it wrote in the same call)']
+    c.run_jobs(nproc)
+    c.confirm()
+    return c.finish()
+
+
+def check_C05(tier, nproc=None):
+    c = Check('C05', tier)
+    N = 5 if tier == 'quick' else 7
+    # (a) every byte string up to N for each reader; (b) digit-string templates reaching the type bounds
+    for kind in range(6):
+        for n in range(0, N + 1):
+            c.add(Job('vH_C05', [('bytes', 'd', n), ('int', kind)], weight=2 ** n))
+    D = [1, 9, 10, 11, 17, 18, 19, 20, 21] if tier == 'quick' else list(range(1, 23))
+    for kind in range(6):
+        for nd in D:
+            for sign in ([b''] if kind in (0, 3, 5) else [b'', b'-']):
+                if kind in (2, 3) and nd > 12 and tier == 'quick':
+                    continue
+                # optional sign, nd symbolic digit positions, one symbolic look-ahead byte
+                c.add(Job('vH_C05', [('tmpl', 'd', [sign, nd + 1]), ('int', kind)], weight=nd * 50))
+    c.bounds = {'N_all_strings': N, 'digit_templates': D, 'template': 'optional "-", D symbolic bytes, 1 symbolic look-ahead byte'}
+    c.must_reach = ['C05.compared', 'C05.value']
+    _std(c, ['value oracle: Horner evaluation of the reference digit range; range oracle: length/lexicographic comparison with the decimal bound'])
+    c.outside = ['literals longer than 22 digits', 'leading whitespace longer than N', '32-bit platforms']
+    c.run_jobs(nproc)
+    c.confirm()
+    return c.finish()
+
+
+def check_C12(tier, nproc=None):
+    c = Check('C12', tier)
+    N = 5 if tier == 'quick' else 7
+    for n in range(0, N + 1):
+        for kind in range(6):
+            c.add(Job('vH_C12_int', [('bytes', 'd', n), ('int', kind)], weight=2 ** n))
+        c.add(Job('vH_C12_bool', [('bytes', 'd', n)], weight=2 ** n))
+        for wb in (False, True):
+            c.add(Job('vH_C12_string', [('bytes', 'd', n), ('bool', wb)], weight=3 ** n))
+    for kind in range(6):
+        for nd in ([10, 11, 19, 20] if tier == 'quick' else [9, 10, 11, 18, 19, 20, 21]):
+            for tail in (b'', b'null'):
+                c.add(Job('vH_C12_int', [('tmpl', 'd', [1, nd, tail]), ('int', kind)], weight=nd * 30))
+    c.bounds = {'N': N, 'prior_target': 'free 64-bit value / free bool / string of length 0 or 2 with free bytes'}
+    c.must_reach = ['C12.int-compared', 'C12.int-null', 'C12.bool-compared', 'C12.string-compared']
+    _std(c, ['DecodeFloat64 is covered by C04/C12 float harness only where registered'])
+    c.outside = ['inputs longer than the bounds', 'DecodeFloat64 (see C04)']
+    c.run_jobs(nproc)
+    c.confirm()
+    return c.finish()
+
+
+def check_C06(tier, nproc=None):
+    c = Check('C06', tier)
+    N = 6 if tier == 'quick' else 8
+    for n in range(0, N + 1):
+        for pre, spare in ([(0, 0), (2, 1)] if tier == 'quick' else [(0, 0), (1, 0), (2, 1), (0, 3), (1, 4), (0, n), (2, n + 4)]):
+            c.add(Job('vH_C06_bytes', [('bytes', 'd', n), ('int', pre), ('int', spare)], weight=3 ** n))
+            c.add(Job('vH_C06_unescape', [('bytes', 'd', n), ('int', pre), ('int', spare)], weight=3 ** n))
+        for wb in (False, True):
+            c.add(Job('vH_C06_string', [('bytes', 'd', n), ('bool', wb)], weight=3 ** n))
+    # escapes need length: "\uXXXX" is 8 bytes, a surrogate pair 14
+    T = [[b'"', 2, b'\\u', 4, b'"'], [b'"\\u', 4, b'\\u', 4, b'"'], [b'"\\u', 4, 2, b'"'], [b' "', 1, b'\\', 1, 1, b'"', 1]]
+    if tier != 'quick':
+        T += [[b'"', 1, b'\\u', 4, 2, b'"'], [b'"\\', 1, b'\\u', 4, b'\\', 1, b'"'], [b'"\\ud', 3, b'\\ud', 3, b'x"'], [b'"', 3, b'\\u', 4, 1, b'"']]
+    for t in T:
+        for pre, spare in [(0, 0), (1, 3)]:
+            c.add(Job('vH_C06_bytes', [('tmpl', 'd', t), ('int', pre), ('int', spare)], weight=5000))
+            c.add(Job('vH_C06_unescape', [('tmpl', 'd', t), ('int', pre), ('int', spare)], weight=5000))
+        c.add(Job('vH_C06_string', [('tmpl', 'd', t), ('bool', True)], weight=5000))
+    c.bounds = {'N': N, 'templates': [''.join(('?' * x) if isinstance(x, int) else x.decode() for x in t) for t in T],
+                'destination': 'prefix 0..2 arbitrary bytes, spare capacity 0,1,3,4,n,n+4'}
+    c.must_reach = ['C06.bytes-compared', 'C06.bytes-ok', 'C06.string-compared', 'C06.unescape-wellformed']
+    _std(c)
+    c.outside = ['string tokens longer than the bounds', "UnescapeStringContent's extra \\' escape (outside the property)"]
+    c.run_jobs(nproc)
+    c.confirm()
+    return c.finish()
+
+
+def check_C17(tier, nproc=None):
+    c = Check('C17', tier)
+    N = 4 if tier == 'quick' else 5
+    for n in range(0, N + 1):
+        for pre, spare in ([(0, 0), (1, 2)] if tier == 'quick' else [(0, 0), (1, 0), (1, 2), (2, 4 * n)]):
+            c.add(Job('vH_C17', [('bytes', 'd', n), ('int', pre), ('int', spare)], weight=6 ** n))
+    c.bounds = {'N': N}
+    c.must_reach = ['C17.compared']
+    _std(c, ['slice/map helpers: see level_note'])
+    c.outside = ['strings longer than N bytes (every 1..4-byte sequence class is inside the bound)', 'StdLibCompatibleSlice / StdLibCompatibleMap on trees']
     c.run_jobs(nproc)
     c.confirm()
     return c.finish()
